@@ -178,7 +178,7 @@ def main(argv):
             run.exhaustive = False
         print(f"[{PID}] level {lvl}: {len(cands)} candidates t={time.time() - run.t0:.0f}s", file=sys.stderr)
         run.bounds[f"level{lvl}_candidates"] = len(cands)
-        new = run_level(cands, U, real_envs, PID, run, run.seed, extra_check=chk, compare=False, sample_every=sample_every)
+        new = run_level(cands, U, real_envs, PID, run, run.seed, extra_check=chk, compare=False, sample_every=sample_every, check_undefined=True)
         sts, _ = dedup(new, seen, lvl, run)
         return sts
 
@@ -253,7 +253,7 @@ def replay(run, U, envs, chk):
 
     recipe = tup(rp["witness"]["recipe"])
     part = Part()
-    check_recipe(recipe, U, envs, part, PID, extra_check=chk, compare=False)
+    check_recipe(recipe, U, envs, part, PID, extra_check=chk, compare=False, check_undefined=True)
     run.merge(part.dict())
     run.states = 1
     run.finish()
